@@ -20,7 +20,7 @@ func init() {
 			"(c) in the loop that builds attestations, AggregationBits is a bitlist of committeeSizes[i] with bit validatorCommitteeIndices[i] set, Data.Index is committeeIndices[i], Data.Slot is duty.Slot(), root/source/target come from the data parameter and the signature is sigs[i], all with the same i; " +
 			"(d) an attestation is appended only when sigs[i] is non-zero; (e) committeeSizes[i] is duty.CommitteeSize(committeeIndices[i]) for the same i; " +
 			"(f) the committee indices and data fields handed to the signer are the same values used to build the attestations. " +
-			"Added with the third seeding round: (h) outside NewDuty nothing sorts, shuffles, overwrites or copies into an array of an attester duty (through its fields or its getters). NOT decided: that the signer signs over these values (C06 covers its inputs), correctness of the beacon node's committee data, behaviour for arbitrary duty compositions beyond the index-space argument.",
+			"Added with the third seeding round: (h) outside NewDuty nothing sorts, shuffles, overwrites or copies into an array of an attester duty (through its fields or its getters). Added with the fourth seeding round: (i) the per-validator arrays handed to the signer and the constructor are not fields of the service. NOT decided: that the signer signs over these values (C06 covers its inputs), correctness of the beacon node's committee data, behaviour for arbitrary duty compositions beyond the index-space argument.",
 		Technique: "index-space (provenance of indices) analysis on the typed AST with callee summaries; SSA provenance of composite-literal fields; guard-by-edge-deletion for the zero-signature test",
 		Rule:      "one obligation per analysed function with indexed accesses (a,b), per attestation field (c), per append (d), per store (e), per signer argument (f)",
 	})
